@@ -11,6 +11,7 @@ import (
 	"bytes"
 	"context"
 	"fmt"
+	"path/filepath"
 	"sort"
 	"strconv"
 	"strings"
@@ -571,8 +572,12 @@ func TestC01(t *testing.T) {
 		}
 	}
 
-	n := e.Pick(900, 6000)
+	n := e.Pick(700, 4000)
 	maxLen := e.Pick(40, 400)
+	if strings.HasPrefix(filepath.Base(e.Out), "search") {
+		// the driver's search for a concrete failing input after a break: many short histories
+		n, maxLen = 1500, 40
+	}
 	for i := 0; i < n; i++ {
 		c := configs[e.Rng.Intn(len(configs))]
 		l := 1 + e.Rng.Intn(maxLen)
